@@ -216,6 +216,8 @@ def random_scene(
         tier = ["none", "iso", "diag", "full"][int(rng.integers(4))]
     if lossy and tier == "full":
         tier = "diag"
+    if "tfsf" in kinds and tier in ("diag", "full"):
+        tier = "iso"  # plane-wave injection inside anisotropic media is rejected by fdtdx (NotImplementedError)
     meta["material_tier"] = tier
     meta["lossy"] = bool(lossy and tier != "none")
     if tier != "none":
